@@ -46,7 +46,7 @@ Html = pg.Html
 C = pg.views.html.controls
 
 TIERS = {
-    'quick': dict(shards=8, cases=200),
+    'quick': dict(shards=8, cases=500),
     'thorough': dict(shards=16, cases=3000),
 }
 RULE = ('case = one description (60 % nested Dict/List/tuple/Object/Ref/Diff/'
